@@ -112,6 +112,7 @@ func (r *Replayer) Run(idx int, b *Behaviour) error {
 	r.devSeen = ""
 	var rig *NotifyRig
 	var expEv []evRec
+	diverged := false
 	if r.Notify {
 		r.S.Close()
 		if err := r.S.Open(); err != nil {
@@ -218,9 +219,17 @@ func (r *Replayer) Run(idx int, b *Behaviour) error {
 			}
 			rig.waitCounts(len(expEv), 2*time.Second)
 		}
-		if bad := r.checkTable(k, c, &st); bad {
-			finishRig(k)
-			return nil // later steps would only repeat the divergence
+		// once the table has diverged from the specification, later table comparisons would only repeat the divergence; the
+		// answers are still asked and compared with what the specification's store owes: a read property is stated about the
+		// longest chain as DEFINED (greatest cumulative work), not about whatever the store happens to be labelled with
+		if !diverged {
+			if bad := r.checkTable(k, c, &st); bad {
+				diverged = true
+				if rig != nil {
+					finishRig(k)
+					return nil
+				}
+			}
 		}
 		for _, q := range st.Q {
 			r.Queries++
